@@ -1,11 +1,11 @@
 package sim
 
 import (
-	"strings"
 	"encoding/hex"
 	"fmt"
 	"math/big"
 	"sort"
+	"strings"
 
 	disputetypes "github.com/tellor-io/layer/x/dispute/types"
 
